@@ -123,6 +123,16 @@ def job_c16(clsname, width, seed=0):
                               "got": text[:120]})
                 continue
             if width == 10000:
+                # "with -h/--help describing it": the help carries the member's own description
+                # (first line of its docstring; for a settable property: of getter and setter)
+                import inspect as _i
+                mem = _i.getattr_static(cls, spec["member"], None)
+                for obj in ([mem.fget, mem.fset] if isinstance(mem, property) else [getattr(cls, spec["member"], None)]):
+                    doc = (_i.getdoc(obj) or "").strip() if obj is not None else ""
+                    first = doc.split("\n", 1)[0].strip()
+                    if first and "%" not in first and first not in text:
+                        fails.append({"what": "the command's help does not carry the member's description",
+                                      "cmd": cmd, "description": first, "got": text[:300]})
                 h = ctrlrun.parse_help(text)
                 want_pos = [(a[0], a[3]) for a in spec["args"] if not a[1]]
                 got_pos = [(n, ctrlrun.usage_nargs(h["usage"], n)) for n in h["positionals"]]
@@ -140,7 +150,9 @@ def job_c16(clsname, width, seed=0):
         if width == 10000:
             listed = []
             for ln in top.split("\n"):
-                m = __import__("re").match(r"^    ([A-Za-z][A-Za-z0-9_-]*)\s", ln)
+                # whatever is listed as a command, also names that start with a dash (a non-public
+                # member's name turned into a command name)
+                m = __import__("re").match(r"^    (\S+)(\s|$)", ln)
                 if m:
                     listed.append(m.group(1))
             # argparse leaves a sub-command without help text out of the *listing* (it is still a
